@@ -12,6 +12,6 @@ func OpenExclusions() Excl {
 	}
 	return Excl{
 		R1: open("R1"), R3: open("R3"), R4: open("R4"), R5: open("R5"), R6: open("R6"),
-		R7: open("R7"), R8: open("R8"), R20: open("R20"), F1: open("F1"), F2: open("F2"),
+		R7: open("R7"), R8: open("R8"), R20: open("R20"), R21: open("R21"), F1: open("F1"), F2: open("F2"),
 	}
 }
